@@ -191,7 +191,7 @@ def cli_args(draw, options=None, weight_default=3):
 
 @st.composite
 def pipeline_case(draw, modes=MODES, kinds=ALL_KINDS, max_refs=3, max_queries=6, options=None, weight_default=3,
-                  ref_sizes=("tiny", "small", "medium", "medium", "large", "large"), min_queries=1):
+                  ref_sizes=("tiny", "small", "medium", "medium", "large", "large"), min_queries=1, flank_repeat=0):
     nr = draw(st.integers(1, max_refs))
     # small id ranges on purpose: query ids, reference ids and file positions collide, exposing id/index mix-ups
     rids = draw(st.lists(st.one_of(st.integers(1, 6), st.integers(1, 999)), min_size=nr, max_size=nr, unique=True))
@@ -199,8 +199,52 @@ def pipeline_case(draw, modes=MODES, kinds=ALL_KINDS, max_refs=3, max_queries=6,
     nq = draw(st.integers(min_queries, max_queries))
     qids = draw(st.lists(st.one_of(st.integers(1, 10), st.integers(1, 99999)), min_size=nq, max_size=nq, unique=True))
     queries = [draw(query_map(qid, refs, kinds)) for qid in qids]
-    return {"refs": refs, "queries": queries, "mode": draw(st.sampled_from(list(modes))),
+    case = {"refs": refs, "queries": queries, "mode": draw(st.sampled_from(list(modes))),
             "args": draw(cli_args(options, weight_default))}
+    if flank_repeat and draw(st.integers(0, 5)) < flank_repeat:
+        add_flank_repeat(draw, case)
+    return case
+
+
+def add_flank_repeat(draw, case):
+    """a reference [P] ... [M] and a query [P][M][P] on a 100 bp lattice: the first pass places M (the longer part), the
+    second pass gets a head and a tail fragment of the same molecule that both place P with exactly the same score, so
+    whatever orders the rows of one query by arrival becomes visible (added after seeded change C09-4 was missed; exact confidence ties between two rows of one query also matter to C05/C08/C10)"""
+    def lattice(n, lo, hi):
+        return [100 * g for g in draw(st.lists(st.integers(lo, hi), min_size=n, max_size=n))]
+    kp, km = draw(st.integers(8, 12)), draw(st.integers(16, 26))
+    P = _cum(0, lattice(kp - 1, 30, 150))
+    M = _cum(0, lattice(km - 1, 30, 150))
+    g1, g2 = 100 * draw(st.integers(40, 160)), 100 * draw(st.integers(40, 160))
+    # the seeding correlation only considers placements where the whole molecule lies inside the reference: the tail
+    # fragment (which keeps the molecule's length) can only place its P on the reference's P if a molecule's length of
+    # reference lies in front of it
+    lead = _cum(100 * draw(st.integers(0, 200)), lattice(draw(st.integers(2, 6)), 40, 200))
+    while lead[-1] < P[-1] + g1 + M[-1] + g2 + 5000:
+        lead.append(lead[-1] + 100 * draw(st.integers(100, 300)))
+    r = list(lead)
+    p0 = (r[-1] if r else 0) + 100 * draw(st.integers(40, 200))
+    r += [p0 + x for x in P]
+    spacer = _cum(r[-1] + 100 * draw(st.integers(300, 900)), lattice(draw(st.integers(0, 4)), 200, 700))
+    r += spacer
+    m0 = r[-1] + 100 * draw(st.integers(300, 900))
+    r += [m0 + x for x in M]
+    # ... and at least a flank's worth of reference behind M
+    end_m = r[-1]
+    tail = _cum(end_m + 100 * draw(st.integers(40, 200)), lattice(draw(st.integers(2, 6)), 40, 200))
+    while tail[-1] < end_m + g2 + P[-1] + 5000:
+        tail.append(tail[-1] + 100 * draw(st.integers(100, 300)))
+    r += tail
+    rid = max([x["id"] for x in case["refs"]] + [0]) + draw(st.integers(1, 3))
+    case["refs"].append({"id": rid, "length": float(r[-1] + 100 * draw(st.integers(0, 50))), "labels": [float(x) for x in r]})
+    q = list(P)
+    q += [q[-1] + g1 + x for x in M]
+    q += [q[-1] + g2 + x for x in P]
+    if draw(st.booleans()):
+        q = [q[-1] - x for x in q[::-1]]
+    qid = max([x["id"] for x in case["queries"]] + [0]) + draw(st.integers(1, 3))
+    case["queries"].insert(draw(st.integers(1, len(case["queries"]))),
+                           {"id": qid, "length": float(q[-1] + 1), "labels": [float(x) for x in q], "truth": {"kind": "flank-repeat"}})
 
 
 def short_case(case):
